@@ -32,6 +32,7 @@ class Stats:
         self.error_msgs = []
         self.prune_reasons = {}
         self.classes = set()
+        self.states = set()
         self.samples = []
         self.counters = {}
 
@@ -46,6 +47,7 @@ class Stats:
         for k, v in o.prune_reasons.items():
             self.prune_reasons[k] = self.prune_reasons.get(k, 0) + v
         self.classes |= o.classes
+        self.states |= o.states
         for k, v in o.counters.items():
             self.counters[k] = self.counters.get(k, 0) + v
         if len(self.samples) < 6:
@@ -108,6 +110,8 @@ def explore_unit(args):
         cls = c.notes.get('class')
         if cls is not None and c.checks > 0:
             st.classes.add(cls)
+            if c.notes.get('state') is not None:
+                st.states.add(c.notes['state'])
         for k, v in c.notes.get('count', {}).items():
             st.counters[k] = st.counters.get(k, 0) + v
         st.inconclusive += c.inconclusive
